@@ -3127,6 +3127,8 @@ def emit(ast: Program) -> str:
                     globals_.append(line)
 
     function_sections: List[str] = []
+    # prototypes, so that a helper may call one that is defined further down
+    function_prototypes: List[str] = []
     for fn in getattr(ast, "functions", []):
         params_src = ", ".join(f"{ptype} {name}" for name, ptype in fn.params)
         header = f"{fn.return_type} {fn.name}({params_src}) {{\n"
@@ -3158,6 +3160,7 @@ def emit(ast: Program) -> str:
             emitted_pin_modes=set(),
             ultrasonic_pin_modes=set(),
         )
+        function_prototypes.append(f"{fn.return_type} {fn.name}({params_src});")
         function_sections.append(header)
         if body_lines:
             function_sections.append("\n".join(body_lines))
@@ -3207,6 +3210,7 @@ def emit(ast: Program) -> str:
             "  return 400.0f;",
             "}\n",
         ]
+        function_prototypes.append(helper_lines[0].rstrip().rstrip("{").rstrip() + ";")
         ultrasonic_sections.append("\n".join(helper_lines))
 
     # Stitch sections
@@ -3227,6 +3231,8 @@ def emit(ast: Program) -> str:
         parts.append(LEN_HELPER_SNIPPET + "\n")
     if globals_:
         parts.append("\n".join(globals_) + "\n\n")
+    if len(function_prototypes) > 1:
+        parts.append("\n".join(function_prototypes) + "\n\n")
     if function_sections:
         parts.append("".join(function_sections))
     if ultrasonic_sections:
